@@ -20,6 +20,9 @@ def main():
     props = [json.loads(l) for l in open(os.path.join(VERIF, "properties.jsonl")) if l.strip()]
     known = load(os.path.join(VERIF, "known_findings.json"), {"findings": [], "fixed": []})
     st = load(os.path.join(VERIF, "selftest_results.json"), [])
+    # drop results of patches that no longer exist (moved to equivalent/ or seeded_rejected/)
+    st = [r for r in st if os.path.exists(os.path.join(VERIF, r["patch"])) or os.path.exists(os.path.join(VERIF, r["patch"], "patch.diff"))]
+    json.dump(st, open(os.path.join(VERIF, "selftest_results.json"), "w"), indent=1)
     out = []
     out.append("### 10.1 Per-property summary (last run of each check on /repo; mutants and seeded changes from `bin/selftest`)\n")
     out.append("| prop | tier | cases | class keys | comparisons | wall s | repaired defects (`fix:` commits) | known findings | own mutants killed | seeded changes killed |")
